@@ -425,7 +425,13 @@ func (g *docGen) spread(parent string, depth, fragIdx int) *model.Sel {
 // dirs draws @skip/@include with literal or variable conditions.
 func (g *docGen) dirs(where string) []*model.Dir {
 	t := g.t
-	if g.o.NoDirs || !chance(t, 18, "hasDir") {
+	if g.o.NoDirs {
+		return nil
+	}
+	if !chance(t, 18, "hasDir") {
+		if len(g.s.Directives) > 0 && chance(t, 10, "onlyCustomDir") {
+			return g.customDir(where)
+		}
 		return nil
 	}
 	var out []*model.Dir
@@ -450,7 +456,27 @@ func (g *docGen) dirs(where string) []*model.Dir {
 		out = append(out, mk(other))
 		g.BothDirs++
 	}
-	return out
+	return append(out, g.customDir(where)...)
+}
+
+// customDir applies one of the schema's custom directives that is allowed at this kind of
+// location, with arguments of the declared types (their names are the field arguments' names:
+// x, y, z - sometimes `if`).
+func (g *docGen) customDir(where string) []*model.Dir {
+	loc := map[string]string{"field": "FIELD", "spread": "FRAGMENT_SPREAD", "inline": "INLINE_FRAGMENT"}[where]
+	var cands []*model.DirectiveDef
+	for _, d := range g.s.Directives {
+		for _, l := range d.Locations {
+			if l == loc {
+				cands = append(cands, d)
+			}
+		}
+	}
+	if len(cands) == 0 || !chance(g.t, 50, "customDir") {
+		return nil
+	}
+	d := cands[intn(g.t, 0, len(cands)-1, "customDirIdx")]
+	return []*model.Dir{{Name: d.Name, Args: g.args(d.Args)}}
 }
 
 // variable returns the name of a variable usable at a position of type ty: an existing one of
